@@ -256,6 +256,24 @@ fn scenario(cx: &mut Ctx, rng: &mut Rng) {
             if n != 1 || n2 != 0 {
                 cx.line(format!("X zst drops {} {}", n, n2));
             }
+            // slices of zero-sized values and their conversion to arrays: accepted only for the exact
+            // length, and every value dropped exactly once either way
+            for len in [0usize, 1, 3, 4] {
+                for want in [0usize, 1, 3, 5] {
+                    let bs: BBox<[ZTok]> = BBox::from_iter_in((0..len).map(|_| ZTok), cx.bump);
+                    ZDROPS.with(|z| z.set(0));
+                    let accepted = match want {
+                        0 => match BBox::<[ZTok; 0]>::try_from(bs) { Ok(a) => { drop(a); true } Err(b) => { drop(b); false } },
+                        1 => match BBox::<[ZTok; 1]>::try_from(bs) { Ok(a) => { drop(a); true } Err(b) => { drop(b); false } },
+                        3 => match BBox::<[ZTok; 3]>::try_from(bs) { Ok(a) => { let back: BBox<[ZTok]> = BBox::from(a); drop(back); true } Err(b) => { drop(b); false } },
+                        _ => match BBox::<[ZTok; 5]>::try_from(bs) { Ok(a) => { drop(a); true } Err(b) => { drop(b); false } },
+                    };
+                    let dropped = ZDROPS.with(|z| z.get());
+                    if accepted != (len == want) || dropped as usize != len {
+                        cx.line(format!("X zst slice of {} to array of {}: accepted={} dropped={}", len, want, accepted, dropped));
+                    }
+                }
+            }
         }
         10 => {
             // trait forwarding: comparisons, hashing, iteration, Display of unsized str
